@@ -79,7 +79,9 @@ Section Resume.
   Inductive rout :=
   | ROver (st : rstate)                 (* Over received: loop left *)
   | RBlocked (st : rstate)              (* waiting for the next HASH line *)
-  | RPanic (st : rstate) (n : Z)        (* make([]byte, n) with n < 0: run-time panic, unrecovered *)
+  | RInvalid (st : rstate) (hstep : Z)  (* "Invalid hash step": step <= 0 or step > kPrefixHashStep, refused before
+                                           anything is allocated or answered (guard present: Consts.resume_step_guard) *)
+  | RPanic (st : rstate) (n : Z)        (* only without the guard: make([]byte, n) with n < 0 panics, unrecovered *)
   | RReadErr (st : rstate) (alloc : Z). (* n bytes were allocated, then io.ReadFull hit EOF: error returned *)
 
   Fixpoint recv_hashes (dst : list byte) (msgs : list hmsg) (st : rstate) : rout :=
@@ -90,7 +92,8 @@ Section Resume.
       if negb (r_match st) then recv_hashes dst rest st          (* `continue`: nothing read, nothing answered *)
       else
         let step := (hstep - r_mstep st)%Z in
-        if (step <? 0)%Z then RPanic st step                      (* buffer := make([]byte, step) *)
+        if Consts.resume_step_guard && ((step <=? 0)%Z || (Z.of_N B <? step)%Z) then RInvalid st hstep
+        else if (step <? 0)%Z then RPanic st step                 (* buffer := make([]byte, step) *)
         else if (Z.of_nat (r_off st) + step <=? Z.of_nat (length dst))%Z then
           let n := Z.to_nat step in
           let buf := firstn n (skipn (r_off st) dst) in           (* io.ReadFull(file, buffer) *)
